@@ -2,7 +2,7 @@
 import ast
 import time
 
-CONTRACT_MODULES = ['c02_outputs', 'c03_idmanager']
+CONTRACT_MODULES = ['c02_outputs', 'c15_iterations', 'c03_idmanager']
 LEVEL = 'other'
 TRUSTED = ['pyvc', 'z3 5.1.0 / cvc5 1.0.3', 'ENGINE-SPEC: the engine differentiates the formula it was given (assumed; sampled by the bounded harness)']
 ASSUMPTIONS = ['A-REAL', 'ENGINE-SPEC derivatives (external compiled engine)']
